@@ -131,14 +131,14 @@ def prove_chain(rep, nmfu, program, prop, cls_name):
     node = program.proto.funcs[fnq]
     loops = [x for x in node.body if isinstance(x, ast.For)]
     if len(loops) != 1:
-        rep.undecided_ob(f"{prop}/pyvc/{fnq}/extraction", f"expected one top-level for loop, found {len(loops)}")
+        rep.unavailable(f"{prop}/pyvc/{fnq}/extraction", f"expected one top-level for loop, found {len(loops)}")
         return 0
     loop = loops[0]
     li = node.body.index(loop)
     prologue, epilogue = node.body[:li], node.body[li + 1:]
     if not (isinstance(loop.target, ast.Tuple) and len(loop.target.elts) == 2 and isinstance(loop.iter, ast.Call) and getattr(loop.iter.func, "id", None) == "enumerate"
             and ast.unparse(loop.iter.args[0]) == "self.match_contents"):
-        rep.undecided_ob(f"{prop}/pyvc/{fnq}/extraction", "loop header is not `for j, character in enumerate(self.match_contents)`")
+        rep.unavailable(f"{prop}/pyvc/{fnq}/extraction", "loop header is not `for j, character in enumerate(self.match_contents)`")
         return 0
     jname, cname = loop.target.elts[0].id, loop.target.elts[1].id
     W, j, ch = z3.String("W"), z3.Int("j"), z3.String("ch")
@@ -373,7 +373,7 @@ def prove_wait(rep, nmfu, program, prop):
     fnq = "WaitMatch.convert"
     rep.fn(fnq)
     if program.proto.funcs.get(fnq) is None:
-        rep.undecided_ob(f"{prop}/pyvc/{fnq}/extraction", "function not found")
+        rep.unavailable(f"{prop}/pyvc/{fnq}/extraction", "function not found")
         return 0
     nob = 0
     old_ms = getattr(Engine, "mutable_sets", False)
@@ -461,7 +461,7 @@ def run(rep, prop, which, nmfu, program):
             elif w == "WaitMatch":
                 n += prove_wait(rep, nmfu, program, prop)
         except (Unsupported, NeedFork, KeyError) as e:
-            rep.undecided_ob(f"{prop}/pyvc/{w}.convert/engine", f"outside the modelled Python subset: {type(e).__name__}: {e}")
+            rep.unavailable(f"{prop}/pyvc/{w}.convert/engine", f"outside the modelled Python subset: {type(e).__name__}: {e}")
     rep.trust("vf/pyvc semantics of the Python subset (heap objects, arbitrary list segments `Seg`: only concatenation-like uses allowed, generators evaluated eagerly)")
     rep.assume("debug")
     return n
